@@ -215,7 +215,7 @@ def _skip32(fn):
 MUTANT_PROPS = {
     "revert_10cab46": ["C16"], "revert_15b3ffd": ["C05", "C14"], "revert_34e570a": ["C03", "C14"], "revert_9ca561a": ["C06", "C14"],
     "revert_c02e67c": ["C10", "C03"], "revert_ccc525b": ["C09"], "revert_d1a75b0": ["C08"], "r2_": ["C10"], "r4_": ["C15"],
-    "b32_": ["C17", "C04"], "r1_monty": ["C05", "C04"], "r1_sub": ["C01", "C04"], "r5_bit": ["C07"], "r5_divfloor": ["C03"], "r5_modpow": ["C05"],
+    "b32_": ["C17", "C04"], "r1_monty": ["C05", "C04"], "r1_sub": ["C01", "C04"], "r5_bit": ["C07"], "r5_divfloor": ["C03"], "r5_modpow": ["C05"], "r3_div_scaling": ["C03", "C10"],
 }
 
 
